@@ -75,13 +75,19 @@ class DoesNotTerminate(Exception):
 
 class StepBudget(dict):
     """The interpreter's opcode dispatch table, counting dispatches: a deterministic
-    guard against expansions that never end (generated cases need fewer than 10^4 steps)."""
-    left = 200_000
+    guard against expansions that never end.  C17 sets `limit` per case from the size
+    of the reference expansion (typical cases need < 10^4 steps, the heaviest seen 10^6)."""
+    limit = 20_000_000
+    last_used = 0
+
+    def __init__(self, handlers):
+        dict.__init__(self, handlers)
+        self.used = 0
 
     def __getitem__(self, op):
-        self.left -= 1
-        if self.left < 0:
-            raise DoesNotTerminate("more than 200,000 interpreter steps")
+        self.used = StepBudget.last_used = self.used + 1
+        if self.used > StepBudget.limit:
+            raise DoesNotTerminate("more than %d interpreter steps" % StepBudget.limit)
         return dict.__getitem__(self, op)
 
 
@@ -141,7 +147,10 @@ def expand_ref(lib, page, schema, which: str = "page") -> str:
     for name, text in (("lib", lib), ("page", page)):
         if text is not None:
             tpls[name] = globs[name] = talref.RefTemplate(text)
-    return tpls[which].expand(globs)
+    out = tpls[which].expand(globs)
+    # at most a few dozen interpreter steps per element the reference rendered
+    StepBudget.limit = 100_000 + 500 * tpls[which].work
+    return out
 
 
 def compare(lib, page, schema, which: str, ref_out: list = None):
